@@ -120,6 +120,14 @@ func CanSet(scope int, id byte) bool {
 }
 
 func init() {
+	gen.ReasonName = func(code byte) string {
+		var s string
+		func() {
+			defer func() { recover() }()
+			s = mq.ReasonCode(code).String()
+		}()
+		return s
+	}
 	// injected transport errors may wrap errors of the library's own types
 	link.ExtraInner = append(link.ExtraInner,
 		func() error { return &mq.Malformed{} },
@@ -215,7 +223,11 @@ func setReserved(t *sim.Tape, frame []byte, fm []ref.Field) ([]byte, bool) {
 		f := cands[t.Int(len(cands))]
 		switch f.Name {
 		case "ConnectFlags":
-			out[f.Start] |= 0x01
+			if out[f.Start]&0x04 != 0 && t.Bool(1, 2) {
+				out[f.Start] |= 0x18 // will QoS 3: MQTT defines 0..2 only
+			} else {
+				out[f.Start] |= 0x01
+			}
 		case "AckFlags":
 			out[f.Start] |= byte(2 << uint(t.Int(7)))
 		case "Options":
